@@ -68,7 +68,7 @@ extern "C" void c07_begin()
   try { bs.doit(ctx); } catch (RuntimeError& re) { escaped = true; code = re.no; } catch (...) { verif_assert(false, "C01: foreign exception from begin"); return; }
   VX_WITNESS();
   int expect = clause_matches(CL[VX_CL][0]) ? 1 : clause_matches(CL[VX_CL][1]) ? 2 : 0;
-  verif_assert(ctx.execLevel() == lvl, "C07: execution level restored on every exit");
+  verif_assert(ctx.execLevel() == lvl, "C07/C15: execution level restored on every exit");
   verif_assert(ran_body == 1 && lvl_in_body == lvl + 1, "C07: body runs once, one level deeper");
   verif_assert(ran_h1 == (expect == 1 ? 1 : 0) && ran_h2 == (expect == 2 ? 1 : 0), "C07: exactly the first matching clause runs (others = any catchable kind)");
   if (VX_KIND == 0) verif_assert(!escaped, "C07: no error, nothing reported");
@@ -79,6 +79,6 @@ extern "C" void c07_begin()
     int kno = VX_KIND <= 2 ? EXC_RT_USER_S : VX_KIND == 3 ? EXC_RT_DIVIDE_BY_ZERO : EXC_RT_OUT_OF_RANGE;
     verif_assert(err_in_h == kno && lvl_in_h == lvl + 1, "C07: the caught error is visible while the handler runs");
     if (h_throws) verif_assert(escaped && code == EXC_RT_OUT_OF_RANGE, "C07: an error raised by the handler propagates");
-    else { verif_assert(!escaped, "C07: handled error stops propagating"); verif_assert(ctx.error().no == EXC_RT_NOERROR, "C07: error record cleared after handling"); }
+    else { verif_assert(!escaped, "C07: handled error stops propagating"); verif_assert(ctx.error().no == EXC_RT_NOERROR, "C07/C15: error record cleared after handling"); }
   }
 }
